@@ -387,14 +387,7 @@ def call_bound(it, f: BoundBuiltin, args, kwargs):
     if isinstance(t, VRef):
         h = it.ctx.deref(t)
         if isinstance(h, HObj) and h.cls.startswith("ext:"):
-            _use(it, f"model:{h.cls[4:]}.{name}() only has the effect of being called (recorded), result unconstrained")
-            it.ctx.mutate()
-            calls = it.ctx.deref(h.fields["calls"])
-            calls.items.append((name, tuple(args)))
-            rs = h.fields.get("__returns__", {}).get(name)
-            if rs is None:
-                return None
-            return it.engine.make_sym(it.ctx, rs, fresh_name(name))
+            return ext_method(it, t, h, name, args, kwargs)
         if isinstance(h, HList):
             return list_method(it, t, h, name, args, kwargs)
         if isinstance(h, HDict):
@@ -666,6 +659,39 @@ def set_method(it, ref, h, name, args, kwargs):
     raise Unsupported(f"set.{name}")
 
 
+def ext_method(it, ref, h, name, args, kwargs):
+    """Method of an external / scripted object: recorded; effects, result and exceptions per its model."""
+    from .interp import Frame
+    from .values import Coro
+    spec = (h.fields.get("__methods__") or {}).get(name, {})
+    _use(it, f"model:{h.cls[4:]}.{name}(): " + (f"scripted model {sorted(spec)}" if spec else
+                                               "only the fact of the call matters (recorded), returns None"))
+
+    def run():
+        it.ctx.mutate()
+        if isinstance(h.fields.get("calls"), VRef):
+            calls = it.ctx.deref(h.fields["calls"])
+            calls.items.append((name, tuple(args)))
+        cm = it.engine.contract_module(it.engine.current)
+        efr = Frame(cm, {"self": ref, "args": tuple(args), "kwargs": kwargs})
+        new_vals = {f: it.eval(it.engine.parse_clause(e), efr) for f, e in spec.get("effects", {}).items()}
+        for f, v in new_vals.items():
+            h.fields[f] = v
+        # the call was made (effects recorded) whether or not it then fails
+        for exc in spec.get("raises", []):
+            if it.ctx.choose(f"{h.cls[4:]}.{name} raises {exc}"):
+                raise PyRaise(exc)
+        rs = spec.get("returns")
+        if rs is None:
+            return None
+        if isinstance(rs, str):
+            return it.eval(it.engine.parse_clause(rs), efr)
+        return it.engine.make_sym(it.ctx, rs, fresh_name(name))
+    if spec.get("is_async"):
+        return Coro(run, label=f"{h.cls[4:]}.{name}")
+    return run()
+
+
 def keyset_method(it, ref, h, name, args, kwargs):
     from . import keysets
     eng = it.engine
@@ -760,10 +786,42 @@ def call_ext(it, f: ExtRef, args, kwargs):
                 "AssertionError", "IndexError", "Exception", "BaseException", "CancelledError",
                 "TimeoutError", "StopIteration", "AttributeError", "ZeroDivisionError"):
         return ExcValue(last, tuple(args))
+    if n.startswith("asyncio."):
+        r = call_asyncio(it, n[8:], args, kwargs)
+        if r is not NotImplemented:
+            return r
     r = it.engine.call_external(it, n, args, kwargs)
     if r is not NotImplemented:
         return r
     raise Unsupported(f"call to external {n}")
+
+
+def call_asyncio(it, name, args, kwargs):
+    from .values import Coro
+    if name == "gather":
+        _use(it, "model:asyncio.gather runs every awaitable once, results positionally (exceptions as values with return_exceptions)")
+        ret_exc = it.decide(kwargs.get("return_exceptions", False))
+        coros = list(args)
+
+        def run():
+            results = []
+            for co in coros:
+                try:
+                    results.append(it.engine.await_value(it, co, None))
+                except PyRaise as e:
+                    if not ret_exc or not isinstance(e.cls, str):
+                        raise
+                    if e.cls in ("KeyboardInterrupt", "SystemExit"):
+                        raise
+                    results.append(e.value if isinstance(e.value, ExcValue) else ExcValue(e.cls))
+            return it.ctx.alloc(HList(results))
+        return Coro(run, label="gather")
+    if name == "sleep":
+        _use(it, "model:asyncio.sleep returns None (may be cancelled only where the contract says so)")
+        return Coro(lambda: None, label="sleep")
+    if name == "CancelledError":
+        return ExcValue("CancelledError", tuple(args))
+    return NotImplemented
 
 
 def deepcopy_value(it, v):
